@@ -3,6 +3,8 @@
  *
  * line:  <ns> <create> [<step>;<step>;...]
  *   ns      0 | 1 (serialise with JSON_C_TO_STRING_NOSLASHESCAPE)
+ *   <hex>   lowercase hex, "-" = empty, or @<k>x<n> = the n bytes (7 i + 13 k + 5 (i / 256)) mod 251;
+ *           byte strings longer than 256 are PRINTED as #<len>:<fnv1a-32>:<first 16>:<last 16>
  *   create  L<hex>,<len>[!k]  json_object_new_string_len(bytes, len)
  *           Z<hex>[!k]        json_object_new_string(bytes ++ NUL)
  *   step    l<hex>,<len>[!k]  json_object_set_string_len(o, bytes, len)
@@ -29,6 +31,33 @@
 #include "json.h"
 #include "json_object_private.h"
 const char *DOMAIN = "str";
+
+/* source bytes: hex, or "@<k>x<n>" = the n bytes b(i) = (7 i + 13 k + 5 (i / 256)) mod 251, in an
+ * exact-size heap block */
+static unsigned char *get_src(const char *h, size_t *len)
+{
+	unsigned long k, n, i;
+	unsigned char *b;
+	if (h[0] != '@') return unhex(h, len);
+	if (sscanf(h, "@%lux%lu", &k, &n) != 2) { k = 0; n = 0; }
+	b = (unsigned char *)(malloc)(n ? n : 1);
+	for (i = 0; i < n; i++) b[i] = (unsigned char)((7 * i + 13 * k + 5 * (i / 256)) % 251);
+	*len = n;
+	return b;
+}
+
+/* values longer than 256 bytes are printed as #<len>:<fnv1a-32>:<first 16>:<last 16> */
+static void puthexc(const unsigned char *b, size_t n)
+{
+	uint32_t h = 0x811c9dc5u;
+	size_t i;
+	if (n <= 256) { puthex(b, n); return; }
+	for (i = 0; i < n; i++) h = (h ^ b[i]) * 16777619u;
+	printf("#%zu:%08x:", n, (unsigned)h);
+	for (i = 0; i < 16; i++) printf("%02x", b[i]);
+	putchar(':');
+	for (i = n - 16; i < n; i++) printf("%02x", b[i]);
+}
 
 static unsigned char *exp_b;   /* expected bytes, exact-size heap copy */
 static size_t exp_n;
@@ -67,7 +96,7 @@ static void observe(struct json_object *o, const char *ret, long dlive, int flag
 	unsigned char *v;
 	const unsigned char *z;
 	printf("%s %d ", ret, len);
-	puthex(p, len > 0 ? (size_t)len : 0);
+	puthexc(p, len > 0 ? (size_t)len : 0);
 	printf(" %d %c %ld E", (len >= 0 && p[len] == 0) ? 1 : 0, raw < 0 ? 'S' : 'I', dlive);
 	/* a) exact */
 	putchar(eq_fresh(o, exp_b, exp_n));
@@ -94,14 +123,14 @@ static void observe(struct json_object *o, const char *ret, long dlive, int flag
 	if (json_object_deep_copy(o, &c, NULL) != 0 || !c) printf("NULL");
 	else {
 		int cl = json_object_get_string_len(c);
-		puthex((const unsigned char *)json_object_get_string(c), cl > 0 ? (size_t)cl : 0);
+		puthexc((const unsigned char *)json_object_get_string(c), cl > 0 ? (size_t)cl : 0);
 		json_object_put(c);
 	}
 	/* serialisation */
 	printf(" J");
 	j = json_object_to_json_string_length(o, flags, &jn);
 	if (!j) printf("NULL");
-	else puthex((const unsigned char *)j, jn);
+	else puthexc((const unsigned char *)j, jn);
 }
 
 /* split "<hex>[,<len>][!k]" in place */
@@ -151,7 +180,7 @@ void run_case(char *rest)
 	live0 = xa_live;
 
 	parse_arg(create + 1, &hex, &len, &has_len, &fault);
-	b = unhex(hex, &n);
+	b = get_src(hex, &n);
 	if (fault >= 0) xa_fail_at = xa_count + fault;
 	if (create[0] == 'L') {
 		o = json_object_new_string_len((const char *)b, (int)len);
@@ -212,7 +241,7 @@ void run_case(char *rest)
 			continue;
 		}
 		parse_arg(tok + 1, &hex, &len, &has_len, &fault);
-		b = unhex(hex, &n);
+		b = get_src(hex, &n);
 		before = xa_live;
 		if (tok[0] == 'l') {
 			if (fault >= 0) xa_fail_at = xa_count + fault;
